@@ -15,6 +15,7 @@ def reg():
 def run(tier, seed):
     rep = Report('C15', tier, seed)
     rep.add_unit_results(util.run_jobs(util.jobs_for(reg, tier=tier)))
+    util.listdict_dependency(rep, tier, sorts=('U',))
     rep.explanation = ('Main-loop invariant "nodes_by_rate = {u -> rate(u, current statuses) | rate > 0}" is established by the initial loop and preserved by '
                        'every event: the changed node is re-rated, then every member of the influence set (prefix invariant), and by the covering '
                        'assumption of the property nobody else\'s rate changed; the clock argument is the sum of the current rates (guarded by > 0), '
